@@ -452,10 +452,11 @@ def replay(pid, path):
     print(json.dumps(obj, indent=1)[:4000])
     fi = obj.get("failing_input")
     if fi:
-        tmp = os.path.join(WORK, "replay_input.txt")
-        open(tmp, "w").write(fi["input"])
-        rc, out = sh([HARNESS_BIN, "replay", pid, tmp], timeout=120)
-        print("re-run on implementation:", out.strip())
+        rc, out = sh([HARNESS_BIN, "replay", pid, path], timeout=120)
+        print("re-run on the implementation (current /repo tree):")
+        print(out.strip())
+    else:
+        print("this replay names a broken proof obligation / correspondence case; no concrete input was found")
 
 
 def main():
